@@ -133,6 +133,37 @@ func ruleParseBodyTotal(w *World, r *Run, ruleB, ruleD string) {
 				nr := calls(s, "bufio.NewReader")
 				good := len(ra) == 1 && len(nr) == 1 && ra[0].Args[0] == nr[0].Res && s.Rets[2] == res(ra[0], 0) && okBefore(s, ra[0], 0)
 				r.Check(good, ruleD, fnParseBody+" | checkpoint = unmodified remainder of the body", w.pos(s.RetPos), "the checkpoint returned is not exactly what remains of the reader after the blank line: "+short(s.Rets[2].String()))
+				// every line between the size line and the blank separator is a proof line and is decoded: a line that is
+				// read and dropped makes the parser accept what it has not understood
+				{
+					rls := calls(s, "(*bufio.Reader).ReadLine", "(*bufio.Reader).ReadString", "(*bufio.Reader).ReadBytes")
+					var decArgs []*Term
+					for _, d := range calls(s, decodeMethods...) {
+						decArgs = append(decArgs, d.Args...)
+					}
+					for i, rl := range rls {
+						if i == 0 {
+							continue // the size line
+						}
+						line := res(rl, 0)
+						if kk, v, _ := eqConstFact(s, mk("len", "", 0, types.Typ[types.Int], line), "0"); kk && v {
+							continue // the separator
+						}
+						used := false
+						for _, a := range decArgs {
+							if a != nil && mentions(a, line) {
+								used = true
+							}
+						}
+						// a fragment of a long line that a helper joins before decoding
+						for _, a := range decArgs {
+							if a != nil && anySub(a, func(t *Term) bool { return t.Kind == "append" && mentions(t, line) }) {
+								used = true
+							}
+						}
+						r.Check(used, ruleD, fnParseBody+" | every proof line read is decoded", w.pos(rl.Pos), "a line read between the size line and the blank separator is not handed to the base64 decoder on this path: it is consumed and ignored (a proof line that is not base64 is accepted, hashes that were written are not returned)")
+					}
+				}
 				// proof list
 				dec := calls(s, "(*encoding/base64.Encoding).DecodeString")
 				pt := s.Rets[1]
